@@ -34,6 +34,7 @@ structure DS where
   calls : List (Nat × List Int) := []      -- block codecs: (chunk, converted items) per call, newest first
   last16 : Int := 0
   okiSt : Oki.St := {}
+  okiCarry : Option Int := none            -- VOX: the sample an odd write call left over
   wbytes : List (List Byte) := []          -- stream codecs: emitted, newest first
   closed : List Byte := []
   rs : RS := .none
@@ -94,16 +95,17 @@ def runLine (ds : DS) (line : String) : DS × Option String :=
         ({ ds with last16 := l, wbytes := bs :: ds.wbytes }, some (ret items))
       | .vox =>
         let xs := vs.map (Oki.ofCaller ds.conv ty)
-        let (s, bs, cnt) := Oki.writeCall (Oki.chunkOf ty) (items + 1) ds.okiSt xs items
-        ({ ds with okiSt := s, wbytes := bs :: ds.wbytes }, some (ret cnt))
+        let (s, cy, bs, cnt) := Oki.writeCall (Oki.chunkOf ty) (items + 1) ds.okiSt ds.okiCarry xs items
+        ({ ds with okiSt := s, okiCarry := cy, wbytes := bs :: ds.wbytes }, some (ret cnt))
   | ["w", _, _, _] => (ds, some "ret=0 err=0")
   | ["close"] =>
     let bytes : List Byte :=
       match ds.codec with
       | .paf24 ch big => paf24Data ch big ds.calls.reverse
       | .sds bw sr => sdsFile bw sr ds.calls.reverse
+      | .vox => ds.wbytes.reverse.flatten ++ (Oki.closeCarry ds.okiSt ds.okiCarry).2      -- codec_close flushes a held sample
       | _ => ds.wbytes.reverse.flatten
-    ({ ds with closed := bytes, calls := [], wbytes := [], last16 := 0, okiSt := {} }, some ("data=" ++ hexBytes bytes))
+    ({ ds with closed := bytes, calls := [], wbytes := [], last16 := 0, okiSt := {}, okiCarry := none }, some ("data=" ++ hexBytes bytes))
   | ["load", hex] =>
     let (ds, s) := openRead ds (parseHexBytes hex)
     (ds, some s)
